@@ -486,8 +486,17 @@ func workC12(c *shardCtx) {
 				defer func() {
 					if r := recover(); r != nil {
 						clearHooks()
-						c.report(harness.Violation{Kind: "schedule-divergence", Signature: "explorer-error:" + fmt.Sprint(r),
-							Input: map[string]interface{}{"expression": text, "scenario": sc.name}, Expected: "deterministic replay", Observed: fmt.Sprint(r)})
+						if d, ok := r.(vsched.ErrDiverged); ok {
+							// the scenario is not a function of the schedule alone: state that survives between
+							// executions (a sync.Pool, a process-wide cache) makes a replayed prefix take another
+							// path. That is a limit of the explorer, not a violation: the scenario keeps its solo
+							// monitor verdict and the race companion, and the run is reported as not exhaustive.
+							c.add("nondeterministic_scenarios", 1)
+							c.res.Capped = "schedule replay diverged for at least one scenario (state surviving between executions, e.g. a sync.Pool): its interleavings were not explored exhaustively — " + d.Msg
+							return
+						}
+						c.report(harness.Violation{Kind: "hang", Signature: "explorer-error:" + fmt.Sprint(r),
+							Input: map[string]interface{}{"expression": text, "scenario": sc.name}, Expected: "every execution terminates", Observed: fmt.Sprint(r)})
 					}
 				}()
 				ex.Explore()
